@@ -185,4 +185,14 @@ PROPS['C18'] = {
     'assumptions': ['System V AMD64 calling convention'],
 }
 
+PROPS['C19'] = {
+    'level': 'exploration',
+    'technique': 'bounded-exhaustive enumeration over a key alphabet on the real library under an execution monitor (valgrind lackey instruction + memory-address trace), trace-equivalence (2-safety) oracle per cell',
+    'level_text': 'For the two variants the property names and the monitor can execute (SSE type 1, AVX2 type 1) and 40 cells - DES / 3DES / DOCSIS-DES jobs in both directions (full blocks, block + tail, tail only), KASUMI F8/F9 and SNOW3G UEA2/UIA2 jobs with byte-aligned and non-byte-aligned bit lengths and several jobs in flight, and every direct KASUMI / SNOW3G function (1/2/3/4/8/N-buffer, bit variants, multi-key, F9) - the cell is executed under valgrind lackey for every key of the alphabet (quick 10: all-zero, all-one, single-bit, byte-walk, seed-derived; thorough 50) with message, IV, lengths, previous destination contents and all addresses fixed. The complete sequence of executed instruction addresses and of load/store addresses+sizes between the marker stores that bracket the cell must be identical for all keys. On a difference the first diverging line and its function are reported.',
+    'level_note': 'Keys outside the alphabet are not covered; key-schedule helpers run outside the markers (the property is about processing a job). Micro-architectural effects are outside an address/branch trace. AVX512 and the SHANI/VAES types cannot be executed by valgrind 3.19 and are not named by the property.',
+    'drivers': [{'name': 'c19', 'src': ['props/c19.c'] + COMMON, 'cfgs': ['std'], 'args': '', 'cflags': '-no-pie'}],
+    'deadline': {'quick': 900, 'thorough': 3000},
+    'assumptions': ['library built with the default SAFE_LOOKUP=ON', 'valgrind lackey reports every guest instruction and memory access'],
+}
+
 NOT_APPLICABLE = {}
